@@ -860,7 +860,8 @@ class Engine:
         raise EngineError(f"expected int, got {type(v).__name__}")
 
     def index(self, path, base, idx, e):
-        if isinstance(base, SOpaque):
+        if isinstance(base, (SOpaque, SRef)):
+            # subscripting an opaque value, or an object the heap model treats as a record (e.g. a `[module, only, renames]` use entry)
             v = self.c.opaque_index(self, path, base, idx, e)
             if v is not None:
                 return v
